@@ -17,7 +17,8 @@ META = {
     "children any scalar by selector; length pre-check: every 9-byte input whose initial byte announces a 1/2/4/8-byte length for major types 2..5",
     "stubs": ["cbor2 -> vlib/cbormodel (differentially validated; semantic tags only with content cbor2 accepts); bytes.hex() -> provenance string (error messages)"],
     "outside": [
-        "wall time, memory and recursion depth of the C decoder (no engine here executes C symbolically)",
+        "wall time, memory and recursion depth of the C decoder (no engine here executes C symbolically); nesting depth of the tool's own recursive parser is not a symbolic variable either: "
+        "the RecursionError escape at ~165 nested directives (F15, fixed) was found by a sub-agent's probe and is guarded by the concrete obligation deep_nesting_guard only",
         "nested (non top-level) absurd length fields are handed to cbor2 unchecked by design of validate_cbor; what the pre-check covers is stated in obligation length_precheck",
         "value skeletons deeper than 1 below a class (composition: containers hand each child its re-serialised item or its raw byte-string content, both inside the per-class domain)",
     ],
@@ -78,6 +79,7 @@ def obligations(tier):
         Ob("cbor_model_validation", "V", "v_cbor", {}, 300, "cbor model vs real cbor2 incl. malformed inputs", twin=False, weight=5),
         Ob("length_precheck", "E1", "h_precheck", {}, 600, "9-byte inputs, major types 2..5, length width 1/2/4/8: declared length > input length rejected before the decoder runs", weight=60),
     ]
+    obs.append(Ob("deep_nesting_guard", "V", "v_deep", {}, 600, "CONCRETE regression guard for fixed finding F15 (not a solver claim): run-sequence / try-each nested 165, 400 and 3000 deep - only ValueError/SUITError may escape from_cbor().to_obj()", twin=False, weight=80))
     for i, n in enumerate(names):
         obs.append(Ob(f"d0_{n}", "E1", "h_fuzz", {"idx": i, "skel": "d0"}, 600, "every scalar kind with symbolic leaves" + (" (ints bounded to -300..300: bit-field below)" if bf[i] else ""), weight=30))
         obs.append(Ob(f"raw1_{n}", "E1", "h_fuzz", {"idx": i, "skel": "raw1"}, 600, "raw input of one symbolic byte (every value)", weight=15))
@@ -86,6 +88,46 @@ def obligations(tier):
             for sk in ("list1", "list2", "map1", "tag1"):
                 obs.append(Ob(f"{sk}_{n}", "E1", "h_fuzz", {"idx": i, "skel": sk}, 900, f"skeleton {sk}: children any scalar by selector", weight=60))
     return obs
+
+
+def deep_input(depth, code):
+    """Envelope whose suit-invoke sequence holds `depth` nested run-sequence (32) / try-each (15) directives (about 6 bytes per level)."""
+    import cbor2
+
+    seq = cbor2.dumps([12, 0])
+    for _ in range(depth):
+        seq = cbor2.dumps([32, seq]) if code == 32 else cbor2.dumps([15, [seq]])
+    man = cbor2.dumps({1: 1, 2: 1, 3: cbor2.dumps({2: [[b"a"]]}), 9: seq})
+    return cbor2.dumps(cbor2.CBORTag(107, {2: cbor2.dumps([cbor2.dumps([-16, bytes(32)])]), 3: man}))
+
+
+def deep_probe(depth, code):
+    """None if parsing returns or fails cleanly, else the name of the escaping exception."""
+    import suit_generator.suit.envelope as EN
+    from suit_generator.exceptions import SUITError
+
+    try:
+        EN.SuitEnvelopeTagged.from_cbor(deep_input(depth, code)).to_obj()
+    except (ValueError, SUITError):
+        return None
+    except Exception as e:  # noqa
+        return type(e).__name__
+    return None
+
+
+def v_deep():
+    """Depth is not a symbolic variable of any engine here (DESIGN.md section 11, F15): this concrete probe only guards the repair."""
+    from vlib import repoenv
+
+    repoenv.prepare_concrete()
+    n = 0
+    for code in (32, 15):
+        for depth in (165, 400, 3000):
+            n += 1
+            r = deep_probe(depth, code)
+            if r is not None:
+                return dict(verdict="VIOLATED", paths=n, cex={"depth": depth, "code": code}, message=f"{r} escapes at nesting depth {depth}")
+    return dict(verdict="CONFIRMED", paths=n, validated=n)
 
 
 def v_cbor():
@@ -290,6 +332,9 @@ def replay(obligation, params, cex):
     import suit_generator.suit.types.common as CM
     from suit_generator.exceptions import SUITError
 
+    if obligation == "deep_nesting_guard":
+        r = deep_probe(cex["depth"], cex["code"])
+        return dict(reproduced=r is not None, detail=f"{cex['depth']} nested directives (code {cex['code']}, {len(deep_input(cex['depth'], cex['code']))} bytes of input): " + (f"{r} escapes the envelope parser" if r else "clean"))
     data = cex.get("data", b"")
     if obligation == "length_precheck":
         import cbor2
